@@ -4,6 +4,8 @@ package filtering
 
 import (
 	"bufio"
+	"bytes"
+	"encoding/json"
 	"context"
 	"fmt"
 	"io"
@@ -60,9 +62,9 @@ var (
 )
 
 func (w *c15World) serve(rw http.ResponseWriter, r *http.Request) {
-	host := r.Host
+	key := r.Host + r.URL.Path
 	w.mu.Lock()
-	sc, ok := w.scripts[host]
+	sc, ok := w.scripts[key]
 	w.mu.Unlock()
 	if !ok {
 		http.Error(rw, "no script", http.StatusTeapot)
@@ -146,8 +148,10 @@ func c15URL(i int, l c15List) string {
 		return fmt.Sprintf("%s/l%d.txt", c15Root, i)
 	}
 
-	return fmt.Sprintf("http://l%d.example/list.txt", i)
+	return c15HTTPURL(i, 0)
 }
+
+func c15HTTPURL(host, ver int) string { return fmt.Sprintf("http://l%d.example/v%d.txt", host, ver) }
 
 func (w *c15World) reset(f []string) []string {
 	n := vutil.Atoi(f[0])
@@ -277,7 +281,7 @@ func (w *c15World) refresh(f []string) []string {
 			}
 		} else {
 			w.mu.Lock()
-			w.scripts[fmt.Sprintf("l%d.example", i)] = c15Script{kind: kind, data: data, complete: complete}
+			w.scripts[strings.TrimPrefix(fy.URL, "http://")] = c15Script{kind: kind, data: data, complete: complete}
 			w.mu.Unlock()
 		}
 	}
@@ -287,7 +291,12 @@ func (w *c15World) refresh(f []string) []string {
 		panic("refresh lock busy")
 	}
 
-	var obs []string
+	return w.observe(before)
+}
+
+// observe reports count, checksum, file, rules in force and "rewritten" of every list.
+func (w *c15World) observe(before []os.FileInfo) (obs []string) {
+	n := len(w.lists)
 	for i := 0; i < n; i++ {
 		fy := w.flt(i)
 		p := fy.Path(w.dataDir)
@@ -312,6 +321,48 @@ func (w *c15World) refresh(f []string) []string {
 	return obs
 }
 
+// setURL runs one set_url request on list i and then does what updatesLoop
+// does with a pending engine rebuild.
+func (w *c15World) setURL(f []string) []string {
+	i, j, k := vutil.Atoi(f[0]), vutil.Atoi(f[1]), vutil.Atoi(f[2])
+	enabled, kind, data, complete := vutil.UnB(f[3]), f[4], vutil.Unhex(f[5]), vutil.UnB(f[6])
+	n := len(w.lists)
+	if i >= n || w.lists[i].local {
+		panic("harness: set_url is exercised on HTTP lists only")
+	}
+	before := make([]os.FileInfo, n)
+	for x := 0; x < n; x++ {
+		before[x], _ = os.Stat(w.flt(x).Path(w.dataDir))
+	}
+	oldURL := w.flt(i).URL
+	newURL := c15HTTPURL(j, k)
+	w.mu.Lock()
+	w.scripts = map[string]c15Script{strings.TrimPrefix(newURL, "http://"): {kind: kind, data: data, complete: complete}}
+	w.mu.Unlock()
+
+	body, err := json.Marshal(filterURLReq{
+		Data:      &filterURLReqData{Name: fmt.Sprintf("l%d", i), URL: newURL, Enabled: enabled},
+		URL:       oldURL,
+		Whitelist: w.lists[i].allow,
+	})
+	if err != nil {
+		panic(err)
+	}
+	r := httptest.NewRequest(http.MethodPost, "http://agh.example/control/filtering/set_url", bytes.NewReader(body))
+	rec := httptest.NewRecorder()
+	w.d.handleFilteringSetURL(rec, r)
+	select {
+	case params := <-w.d.filtersInitializerChan:
+		if ierr := w.d.initFiltering(params.allowFilters, params.blockFilters); ierr != nil {
+			panic(ierr)
+		}
+	default:
+	}
+	changed := w.flt(i).URL == newURL && oldURL != newURL
+
+	return append([]string{strconv.Itoa(rec.Code), vutil.B(changed)}, w.observe(before)...)
+}
+
 func c15RunB(f []string) []string {
 	w := c15Setup()
 	switch f[0] {
@@ -319,6 +370,8 @@ func c15RunB(f []string) []string {
 		return w.reset(f[1:])
 	case "C15.refresh":
 		return w.refresh(f[1:])
+	case "C15.seturl":
+		return w.setURL(f[1:])
 	}
 	panic("unknown op " + f[0])
 }
@@ -368,8 +421,52 @@ func c15GenB(r *rand.Rand, emit vutil.Emit) {
 		}
 		emit(line...)
 		prev := make([]string, n)
+		ver := 0
 		steps := 2 + r.IntN(7)
 		for s := 0; s < steps; s++ {
+			if r.IntN(5) == 0 {
+				// a set_url request on an HTTP list
+				var httpLists []int
+				for i, l := range lists {
+					if !l.local {
+						httpLists = append(httpLists, i)
+					}
+				}
+				if len(httpLists) > 0 {
+					i := vutil.Pick(r, httpLists)
+					j, k := i, 0
+					switch x := r.IntN(10); {
+					case x < 6:
+						ver++
+						k = ver
+					case x < 8:
+						k = ver // maybe the current one: nothing changes
+					case x < 9:
+						k = 0
+					default:
+						j = r.IntN(n) // another list's URL: duplicate
+					}
+					kind, data, complete := "B", c15Content(r, i), true
+					switch x := r.IntN(12); {
+					case x < 3:
+						kind, data = "F", vutil.Pick(r, []string{"404", "500", "reset"})
+					case x < 4:
+						data = ""
+					case x < 5:
+						data = "# only a comment\n\n"
+					case x < 6:
+						complete = false
+					case x < 7:
+						data = "<html><body>moved</body></html>\n"
+					case x < 8:
+						data = prev[i]
+					}
+					emit("C15.seturl", strconv.Itoa(i), strconv.Itoa(j), strconv.Itoa(k), vutil.B(r.IntN(5) > 0),
+						kind, vutil.Hex(data), vutil.B(complete))
+
+					continue
+				}
+			}
 			block, allow := true, true
 			switch r.IntN(6) {
 			case 0:
